@@ -26,7 +26,8 @@ EXPLANATION = (
     'discharges "assigned from a smaller variable"); for-loops never grow the list they iterate. Termination inside tokenize / ast.parse / re is trusted. '
     'R7 the constructor (and str) of DoctestParseError reads from its arguments only what every exception object has, unless under an isinstance/hasattr guard: '
     'it is built inside the wrapping handler from any caught exception. R8 the source line table static collection indexes with ast line numbers is split '
-    'with str.splitlines, whose line ends are a superset of the tokenizer\'s.')
+    'with str.splitlines, whose line ends are a superset of the tokenizer\'s.'
+    ' R2b the containment handler is total: str.format only on literal templates, ensure_unicode only on a value just tested non-empty. R3 also: the google attempt re-raises as soon as ONE example was produced. R9 look-ahead subscripts of split_google_docblocks are under a strict `< len` guard. R10 the candidate index the docstring locators derive from the newline count is range-checked before it indexes the line table (found F14).')
 DECIDES = ['ESCAPE(parse)', 'containment handler shape', 'style dispatch extent', 'collection continues', 'loop VARIANTs']
 NOT_DECIDED = ['termination of the vendored CPython tokenizer, ast.parse and re (trusted)', 'exceptions of property getters']
 
